@@ -156,6 +156,7 @@ private:
     bool                map_op_pending_ = false;
     bool                adv_enabled_ = true;
     int                 adv_count_left_ = -1;       // start_advertising( count )
+    unsigned            idle_while_enabled_ = 0;
     std::vector< unsigned > event_channels_;        // channels used in the current advertising event
     unsigned            event_map_ = 7;
     bool                event_map_changed_ = false;
@@ -212,7 +213,7 @@ private:
         // occupied as well nothing ever moves again. What is observed in that state is named after the state.
         // A received control PDU is only looked at when a transmit buffer of maximum size can be had, whether it needs an answer or not:
         // an instant based PDU that waits behind an occupied (or unallocatable, see C15) transmit ring can miss its instant.
-        const bool tx_starved = std::string( property ) == "C21" && tx_starved_since_update_;
+        const bool tx_starved = ( std::string( property ) == "C21" || ( std::string( property ) == "C20" && key.find( "at-map-instant" ) != std::string::npos ) ) && tx_starved_since_update_;
         // the deadlock: for several events nothing could be received, and no transmit buffer can be had to work the receive ring off
         const bool rx_deadlock = rx_full_streak_ >= 6 || ( rx_full_streak_ >= 2 && ll_.tx_allocatable && !ll_.tx_allocatable() );
         res_.violate( property, rule, rx_deadlock ? "receive-ring-full-acks-ignored " + key : tx_starved ? "transmit-buffer-unavailable " + key : key, idx_, fmt, args... );
@@ -394,8 +395,16 @@ inline void world::activity()
     default:
         // nothing scheduled: the radio sleeps (advertising stopped); let some time pass
         r_.now_us += 10000;
+        // advertising that was started and neither stopped nor used up goes on
+        if ( adv_enabled_ && !p_connected_ && !stop_ )
+        {
+            if ( ++idle_while_enabled_ == 3 )
+                violate( "C24", "advertising-stopped", adv_count_left_ > 0 ? "advertising-stopped count-left" : "advertising-stopped", "advertising is started (%s) and no connection exists, but nothing is scheduled any more",
+                         adv_count_left_ > 0 ? "with PDUs left of its count" : "without limit" );
+        }
         break;
     }
+    if ( r_.pending != radio_state::nothing || !adv_enabled_ || p_connected_ ) idle_while_enabled_ = 0;
     after_callbacks( "radio" );
 }
 
@@ -547,6 +556,8 @@ inline void world::advertising_activity()
         last_event_start_us_ = -1;
         ++connections;
         p_connected_ = true;
+        // without auto start, a connection ends the advertising: it has to be started again by the application
+        if ( ll_.no_auto_start ) { adv_enabled_ = false; adv_count_left_ = -1; }
         established_ = false;
         connect_end_local_us_ = r_.t0_us;
         last_valid_rx_local_us_ = r_.t0_us;
@@ -880,7 +891,10 @@ inline void world::connection_event_activity()
             if ( r_.channel != want )
             {
                 const bool around_instant = map_update_sent_;      // a channel map update was delivered (or is on its way) on this connection
-                violate( around_instant ? "C21" : "C20", "data-channel", std::string( around_instant ? "data-channel at-map-instant" : "data-channel" ), "event %llu scheduled on channel %u, Channel Selection Algorithm #1 gives %u (hop %u)", (unsigned long long)k_abs, r_.channel, want, c_.hop );
+                // the channel is wrong for the map in force at that event (C20); after a channel map update the cause is the handling of its instant (C21)
+                violate( "C20", "data-channel", std::string( around_instant ? "data-channel at-map-instant" : "data-channel" ), "event %llu scheduled on channel %u, Channel Selection Algorithm #1 gives %u (hop %u)", (unsigned long long)k_abs, r_.channel, want, c_.hop );
+                if ( around_instant )
+                    violate( "C21", "data-channel", "data-channel at-map-instant", "event %llu scheduled on channel %u, Channel Selection Algorithm #1 gives %u (hop %u)", (unsigned long long)k_abs, r_.channel, want, c_.hop );
                 c_.sync_excused = true;     // from here on the two sides hop differently: everything else would be a consequence
             }
         }
